@@ -658,6 +658,29 @@ def inject(ctx):
                             if any(isinstance(z, tuple) and z[0] == 'field' and z[2] == 'functions' for z in walk(e1)) or any(isinstance(z, tuple) and z[0] == 'field' and z[2] == 'name' for z in walk(e1)):
                                 names_ok = True
             ok_used = src_ok and names_ok
+            if not ok_used and is_call(strip(ini[0]), 'HashSet::new') or (not ok_used and strip(ini[0])[0] == 'call' and re.search(r'(HashSet|BTreeSet)(::<.*>)?::(new|with_capacity|default)$', strip(ini[0])[1])):
+                # seeded by an explicit loop: `for f in &vftable.functions { used.insert(f.name.clone()) }` in front of everything that
+                # asks the set
+                uv = ('var', used[0], tdb.names.get(used[0]))
+                ins = [c for c in tdb.calls(lambda r: r['path'] and re.search(r'(HashSet|BTreeSet)::<.*>::insert$', r['path'])) if strip(tdb.expr_of_operand(c['term']['args'][0]))[:2] == uv[:2]]
+                asks = [c for c in tdb.calls(lambda r: r['path'] and re.search(r'(HashSet|BTreeSet)::<.*>::contains$', r['path']))] + \
+                    [c for g_ in P.closures_of(tdb) for c in g_.calls(lambda r: r['path'] and re.search(r'(HashSet|BTreeSet)::<.*>::contains$', r['path']))]
+                for c in ins:
+                    L_ = innermost_loop(tdb, c['block'])
+                    if not L_ or any(L_[0] in L2[1] for L2 in tdb.loops() if L2[0] != L_[0]):
+                        continue
+                    sty_, src_ = loop_source(tdb, L_)
+                    if src_ is None:
+                        continue
+                    se_ = expand(tdb, src_)
+                    from_v = any(strip(y) == td_v or strip(y) == strip(expand(tdb, td_v)) for y in walk(se_)) and any(isinstance(z, tuple) and z[0] == 'field' and z[2] == 'functions' for z in walk(se_))
+                    val_ = strip(expand(tdb, tdb.expr_of_operand(c['term']['args'][1])))
+                    name_ = any(isinstance(z, tuple) and z[0] == 'field' and z[2] == 'name' and any(is_call(w_, 'Iterator::next') for w_ in walk(z[1])) for z in walk(val_))
+                    every_ = not cycle_without(tdb, L_[1], L_[0], {c['block']})
+                    first_ = all(a_['block'] not in tdb.reach(0, stop={L_[0]}) or tdb.dominates(L_[0], a_['block']) for a_ in asks if a_['block'] in tdb.blocks_set()) if hasattr(tdb, 'blocks_set') else True
+                    if from_v and name_ and every_ and first_:
+                        ok_used = True
+                        det_u = 'seeded by a loop over the functions of the resolved vftable'
     ctx.ob(['C07', 'C05', 'C13'], 'R-SLP', 'C07|taken-names-start-with-resolved-vftable', ok_used,
            'the set of method names already taken starts with the function names of the type\'s resolved vftable (own block or inherited), the same value that becomes TypeDefinition.vftable: %s' % det_u, where)
     # calls of the add_functions closure
